@@ -22,9 +22,7 @@ mod names {
 	/// Checks if a class name is valid according to JVMS 4.2.1 (also accepting array class names).
 	pub(super) fn is_valid_class_name(x: &JavaStr) -> bool {
 		if x.starts_with('[') {
-			// TODO: max 255 [ are allowed
-			// TODO: must be a field desc
-			true
+			is_valid_arr_class_name(x)
 		} else {
 			// a list of identifiers split by /
 			// each identifier must be an unqualified name
@@ -34,13 +32,18 @@ mod names {
 
 	/// Checks if a class name is a valid array class name according to JVMS 4.2.1
 	pub(super) fn is_valid_arr_class_name(x: &JavaStr) -> bool {
-		if x.starts_with('[') {
-			// TODO: max 255 [ are allowed
-			// TODO: must be a field desc
-			true
-		} else {
-			false
-		}
+		// an array class name is a field descriptor with 1 to 255 leading `[`
+		let element = x.trim_start_matches('[');
+		let dimension = x.len() - element.len();
+		(1..=255).contains(&dimension) && is_valid_array_element_descriptor(element)
+	}
+
+	/// Checks if `x` is a field descriptor of a non-array type: a primitive type or `L<object class name>;`.
+	fn is_valid_array_element_descriptor(x: &JavaStr) -> bool {
+		matches!(x.as_bytes(), [b'B' | b'C' | b'D' | b'F' | b'I' | b'J' | b'S' | b'Z']) ||
+			x.strip_prefix('L')
+				.and_then(|x| x.strip_suffix(';'))
+				.is_some_and(is_valid_obj_class_name)
 	}
 
 	/// Checks if a class name is a valid object class name according to JVMS 4.2.1
